@@ -332,7 +332,7 @@ func verifHistory(outages bool, twoNamespaces bool, ops []int, steps int) {
 // write-back executions with backend outages, forced cleanups, store-level
 // deletions and restarts for one namespace.
 func VerifWriteBackHistoryOneNamespace() {
-	verifHistory(true, false, []int{0, 1, 2, 3, 4, 5, 6}, verif.Bound("steps", 3, 5))
+	verifHistory(true, false, []int{0, 1, 2, 3, 4, 5, 6}, verif.Bound("steps", 3, 4))
 }
 
 // VerifFindingWriteBackTwoNamespaces: the same blob uploaded under two
